@@ -392,3 +392,10 @@ def selftest():
     geom.self_test()
     assert _proper_crossing(np.array([[0, 0], [2, 2], [2, 0], [0, 2.0]]))
     assert not _proper_crossing(np.array([[0, 0], [2, 0], [2, 2], [0, 2.0]]))
+
+
+def fuzz_targets():
+    """atheris: bytes -> integer polygon on an 8x8 grid -> Polygon(...) judged by the exact classifier of clause
+    'polygon' (mode 'lattice'); coverage guides the search through the vendored sweep line's event orders."""
+    seeds = [bytes([4, 0, 7, 63, 56, 1]), bytes([5, 0, 18, 2, 16, 0, 1]), bytes([1, 9, 27, 13, 45, 0])]
+    return [{"clause": "polygon", "decoder": "lattice_polygon", "runs_quick": 4000, "runs_thorough": 400000, "seeds": seeds, "max_len": 24}]
